@@ -87,6 +87,17 @@ theorem wrapR_off (elen : Nat) (single : Text → Nat → Option (List LineD)) (
     | none => rfl
     | some ls => simp only; rw [ih (off + blen p + elen) (off' + blen p + elen)]
 
+/-- neither the byte offset nor the byte length of the line ending matters for the rendered lines -/
+theorem wrapR_elen (e1 e2 : Nat) (single : Text → Nat → Option (List LineD)) (paras : List Text)
+    (off off' n : Nat) : wrapR e1 single paras off n = wrapR e2 single paras off' n := by
+  induction paras generalizing off off' n with
+  | nil => rfl
+  | cons p ps ih =>
+    rw [wrapR_cons, wrapR_cons]
+    cases single p n with
+    | none => rfl
+    | some ls => simp only; rw [ih (off + blen p + e1) (off' + blen p + e2)]
+
 theorem wrapR_append (elen : Nat) (single : Text → Nat → Option (List LineD)) (ps qs : List Text)
     (off n : Nat) :
     wrapR elen single (ps ++ qs) off n =
